@@ -258,6 +258,26 @@ fn table_op(radix: i128, _p: &EdwardsPoint, _s: &Scalar) -> R {
     }
 }
 
+/// `X Y Z T` as four INT LISTs of raw field limbs -> `EdwardsPoint` through the
+/// hook `edwards_from_coords_limbs` (no validity check, no reduction).
+fn point_from_limbs(a: &[&str]) -> Result<EdwardsPoint, Fail> {
+    // a limb list of the OTHER field width (5 x u64 vs 10 x u32) is not
+    // malformed, just not servable by this build
+    for s in &a[..4] {
+        let n = list(s)?.len();
+        if n != vh::FE_NLIMBS && (n == 5 || n == 10) {
+            return Err(Fail::Skip);
+        }
+    }
+    let l = |s: &str| limbs::<vh::FeLimb, { vh::FE_NLIMBS }>(s);
+    Ok(vh::edwards_from_coords_limbs(&[
+        l(a[0])?,
+        l(a[1])?,
+        l(a[2])?,
+        l(a[3])?,
+    ]))
+}
+
 /// `ed.direct.<copy>.<alg>`
 fn direct_op(copy: &str, alg: &str, a: &[&str]) -> R {
     const ALGS: &[&str] = &[
@@ -272,6 +292,8 @@ fn direct_op(copy: &str, alg: &str, a: &[&str]) -> R {
         "double",
         "add",
         "sub",
+        // P given as raw coordinate limbs (possibly unreduced)
+        "mul_limbs",
     ];
     if !["serial", "avx2", "ifma"].contains(&copy) || !ALGS.contains(&alg) {
         return Err(BADREQ);
@@ -289,6 +311,11 @@ fn direct_op(copy: &str, alg: &str, a: &[&str]) -> R {
         PointAdd(EdwardsPoint, EdwardsPoint, bool),
     }
     let job = match alg {
+        "mul_limbs" => {
+            arity(a, 5)?;
+            let p = point_from_limbs(a)?;
+            Job::Mul(p, sc_raw(a[4])?)
+        }
         "double" => {
             arity(a, 1)?;
             Job::PointDouble(pt(a[0])?)
@@ -459,6 +486,14 @@ pub fn ed_op(op: &str, a: &[&str]) -> R {
             let c = ced(a[0])?;
             let s = sc_raw(a[1])?;
             return ok_ed(&(&dec_ed(&c)? * &s));
+        }
+        // variable-base mul of the run-time selected backend on a point given
+        // as raw (possibly unreduced) coordinate limbs
+        "mul_raw_limbs" => {
+            arity(a, 5)?;
+            let p = point_from_limbs(a)?;
+            let s = sc_raw(a[4])?;
+            return ok_ed(&(&p * &s));
         }
         "to_montgomery" => {
             arity(a, 1)?;
